@@ -96,6 +96,9 @@ type Source struct {
 	Events        []Event
 	// Cuts records the offsets at which a chunk boundary fell (for probes).
 	Cuts []int
+	// Seeks counts Seek calls (SeekSource only); pastEnd: a seek went beyond the stored bytes.
+	Seeks   int
+	pastEnd bool
 }
 
 func NewSource(data []byte, plan ReadPlan) *Source {
@@ -306,4 +309,34 @@ func (k *Sink) Write(p []byte) (int, error) {
 		return acc, FaultErr(k.Plan.Fault.ErrKind, true)
 	}
 	return acc, nil
+}
+
+// SeekSource is a Source that also implements io.Seeker (what a bytes.Reader, strings.Reader or *os.File offers): one
+// more way the same stored bytes can reach a reader. Seeking past the end is allowed, as it is for those types; the
+// next Read then reports end of data.
+type SeekSource struct{ *Source }
+
+func (s SeekSource) Seek(offset int64, whence int) (int64, error) {
+	var abs int64
+	switch whence {
+	case io.SeekStart:
+		abs = offset
+	case io.SeekCurrent:
+		abs = int64(s.pos) + offset
+	case io.SeekEnd:
+		abs = int64(len(s.Data)) + offset
+	default:
+		return 0, errors.New("sim: invalid whence")
+	}
+	if abs < 0 {
+		return 0, errors.New("sim: negative position")
+	}
+	s.Seeks++
+	if abs > int64(len(s.Data)) {
+		s.pos = len(s.Data)
+		s.pastEnd = true
+	} else {
+		s.pos = int(abs)
+	}
+	return abs, nil
 }
